@@ -45,6 +45,7 @@ def nav(nodes, nd):
     out["size"] = nd.size
     out["leftsibling"] = _x(nodes, util.leftsibling(nd))
     out["rightsibling"] = _x(nodes, util.rightsibling(nd))
+    out["commonancestors1"] = idx_seq(nodes, util.commonancestors(nd))
     return out
 
 
